@@ -31,7 +31,8 @@ inline std::string dbl_canon(double d, bool norm_zero) {
   char b[40]; snprintf(b, sizeof b, "%a", d); return b;
 }
 // message skeleton: digits collapsed, long byte runs cut (low-cardinality key for trace signatures)
-inline std::string skeleton(const std::string& s, size_t max = 80) {
+inline std::string skeleton(const std::string& s0, size_t max = 80) {
+  const std::string s = sim::norm_paths(s0);
   std::string o;
   bool in_num = false;
   for (unsigned char c : s) {
